@@ -114,11 +114,10 @@ Definition forge_prefix (P : prims) (tbl : list suite_row) (version suite : N) (
   end.
 
 (* A toy instance of the primitives with the right lengths, used by the Corr files to evaluate the
-   framing logic (record lengths, explicit nonces, sequence numbers). It is NOT a cipher. *)
-Definition toy_sum (l : bytes) : N := fold_right (fun x a => (x + a) mod 256) 0 l.
-Definition toy_ks (a : N) (k n : bytes) (l : nat) : bytes := repeat ((toy_sum k + toy_sum n + a) mod 256) l.
-Definition toy_tag (a : N) (k n ad p : bytes) : bytes :=
-  repeat ((toy_sum k + toy_sum n + toy_sum ad + toy_sum p + a) mod 256) aead_overhead.
+   framing logic (record lengths, explicit nonces, sequence numbers) and to show that the laws in
+   Proofs/RecordP.v are satisfiable. It is NOT a cipher: keystreams and tags are all-zero. *)
+Definition toy_ks (a : N) (k n : bytes) (l : nat) : bytes := zeros l.
+Definition toy_tag (a : N) (k n ad p : bytes) : bytes := zeros aead_overhead.
 Definition toy_seal (a : N) (k n ad p : bytes) : bytes := bxor p (toy_ks a k n (length p)) ++ toy_tag a k n ad p.
 Definition toy_open (a : N) (k n ad c : bytes) : option bytes :=
   if (length c <? aead_overhead)%nat then None else
@@ -127,10 +126,10 @@ Definition toy_open (a : N) (k n ad c : bytes) : option bytes :=
   if bytes_eqb (skipn (length c - aead_overhead) c) (toy_tag a k n ad p) then Some p else None.
 Definition toy : prims :=
   mkPrims toy_seal toy_open toy_ks toy_tag
-    (fun a k iv p => map (fun x => N.lxor x ((toy_sum k + toy_sum iv) mod 256)) p)
-    (fun a k iv c => map (fun x => N.lxor x ((toy_sum k + toy_sum iv) mod 256)) c)
-    (fun a k pos l => repeat (toy_sum k) l)
-    (fun a k m => repeat ((toy_sum k + toy_sum m) mod 256) (mac_len a))
+    (fun a k iv p => p)
+    (fun a k iv c => c)
+    (fun a k pos l => zeros l)
+    (fun a k m => zeros (mac_len a))
     (fun s sec => map (fun x => (x + 1) mod 256) sec)
     (fun s sec => (firstn 16 (sec ++ zeros 16), firstn 12 (rev sec ++ zeros 12)))
     (fun v s sec seed n => firstn n (sec ++ seed ++ zeros n)).
